@@ -168,7 +168,7 @@ type pval struct {
 	ref bool   // contains a struct reference or nil reference
 }
 
-var c14Strings = []string{"a", "", "a b", "[x]", "nil", "&{", "map[", "héllo", "1", "true", "...", "🐐"}
+var c14Strings = []string{"a", "", "a b", "[x]", "nil", "&{", "map[", "héllo", "1", "true", "...", "🐐", "100%", "%d items", "a%sb%v", "%!"}
 
 func genScalar(r *RNG, kind string) pval {
 	switch kind {
